@@ -6,7 +6,9 @@ import PdModel.Proto
 * `literal <strLineno> <u:value>`           → `dl=<docstring_lineno> clean=<u:cleandoc(value)>`
 * `report <isModule> <docstring_lineno> <linenumber> <d|x|o> <offset>` → printed line or `???`
 * `doc <e|r|g|n> <isModule> <linenumber> <strLineno> <u:value> <cls:raw:j>*`
-      cls ∈ E U P X                        → `dl=… n=… | <line>:<cls> …` (sorted)
+      cls ∈ E U P X B D T (see `IOCons`)    → `dl=… n=… | <line>:<cls> …` (sorted)
+* `moved <fmt> <srcFile> <currentModuleFile> <linenumber> <strLineno> <u:value> <cls:raw:j>*`
+      → set of `<file>:<line>:<cls>` for an object moved by a re-export
 * `inherit <fmt> <srcFile> <srcLinenumber> <strLineno> <u:value> <-|file.ln,…> <cls:raw:j>*`
       → set of `<file>:<line>:<cls>` printed when the source and the inheriting objects are rendered
 * `inrange <strLineno> <u:value> <isModule> <linenumber> <d|x|o> <offset>` → `<line> in|out`
@@ -45,6 +47,37 @@ def parseConstruct (tok : String) : Option Construct :=
     let jj ← j.toNat?
     some ⟨cls, raw, jj⟩
   | _ => none
+
+/-- protocol-level construct: E U P X as `Cls`; B / D = bad parameter documented by a bullet /
+definition-list entry of a consolidated field; T = cross-reference in a definition-list classifier -/
+structure IOCons where
+  tag : String
+  raw : Nat
+  j : Nat
+
+def parseIOCons (tok : String) : Option IOCons :=
+  match tok.splitOn ":" with
+  | [c, r, j] => do
+    let raw ← r.toNat?
+    let jj ← j.toNat?
+    if ["E", "U", "P", "X", "B", "D", "T"].contains c then some ⟨c, raw, jj⟩ else none
+  | _ => none
+
+/-- line and class letter printed for one protocol construct of a literal -/
+def ioLine (fmt : Fmt) (sl : Nat) (doc : List Char) (ln : Int) (im : Bool) (c : IOCons) : Line × String :=
+  let o := docObj sl doc ln im
+  let i : Int := (c.raw : Int) - (dropped doc : Nat)
+  match c.tag with
+  | "B" => (report o .docstring (rstFieldLineno docutilsBase .bulletItem i), "P")
+  | "D" => (report o .docstring (rstFieldLineno docutilsBase .deflistItem i), "P")
+  | "T" => (report o .xref classifierXrefOffset, "X")
+  | t => match parseCls t with
+    | some cls => (reportedLine fmt sl doc ln im ⟨cls, c.raw, c.j⟩, showCls cls)
+    | none => (.unknown, "?")
+
+/-- epytext: a fatal markup error leaves only the errors -/
+def ioReported (fmt : Fmt) (cs : List IOCons) : List IOCons :=
+  if fmt = .epytext ∧ cs.any (fun c => c.tag == "E") then cs.filter (fun c => c.tag == "E") else cs
 
 def parseBool : String → Option Bool
   | "0" => some false | "1" => some true | _ => none
@@ -108,16 +141,17 @@ def handle (args : List String) : String :=
     | some im, some dl, some ln, some sec, some off => showLine (report ⟨dl, ln, im⟩ sec off)
     | _, _, _, _, _ => "bad-op"
   | "doc" :: fmt :: im :: ln :: sl :: v :: cs =>
-    match parseFmt fmt, parseBool im, parseInt ln, sl.toNat?, Proto.decodeStr v, cs.mapM parseConstruct with
+    match parseFmt fmt, parseBool im, parseInt ln, sl.toNat?, Proto.decodeStr v, cs.mapM parseIOCons with
     | some fmt, some im, some ln, some sl, some doc, some cs =>
-      let toks := (reportedConstructs fmt cs).map fun c =>
-        showLine (reportedLine fmt sl doc ln im c) ++ ":" ++ showCls c.cls
+      let toks := (ioReported fmt cs).map fun c =>
+        let r := ioLine fmt sl doc ln im c
+        showLine r.1 ++ ":" ++ r.2
       "dl=" ++ toString (extractLinenum sl doc) ++ " n=" ++ toString (cleandocLines doc).length
         ++ " | " ++ " ".intercalate (sortToks toks)
     | _, _, _, _, _, _ => "bad-op"
   | "inherit" :: fmt :: sfile :: sln :: sl :: v :: inh :: cs =>
     -- inh: `-` or `file.linenumber,file.linenumber,…` (the objects showing the inherited docstring)
-    match parseFmt fmt, sfile.toNat?, parseInt sln, sl.toNat?, Proto.decodeStr v, cs.mapM parseConstruct,
+    match parseFmt fmt, sfile.toNat?, parseInt sln, sl.toNat?, Proto.decodeStr v, cs.mapM parseIOCons,
       (if inh == "-" then some [] else (inh.splitOn ",").mapM fun t =>
         match t.splitOn "." with
         | [f, l] => do some (← f.toNat?, ← parseInt l)
@@ -125,9 +159,21 @@ def handle (args : List String) : String :=
     | some fmt, some sfile, some sln, some sl, some doc, some cs, some inh =>
       let source : Located := ⟨sfile, ⟨0, sln, false⟩⟩
       let viewers : List Located := source :: inh.map fun p => ⟨p.1, ⟨0, p.2, false⟩⟩
-      let toks := viewers.flatMap fun o => (reportedConstructs fmt cs).map fun c =>
-        let r := reportedAt fmt sl doc source o c
-        toString r.1 ++ ":" ++ showLine r.2 ++ ":" ++ showCls c.cls
+      let toks := viewers.flatMap fun o => (ioReported fmt cs).map fun c =>
+        -- the report is made on `reportTarget source o`, i.e. with the source's file, line base and linenumber
+        let t := reportTarget source o
+        let r := ioLine fmt sl doc t.obj.linenumber t.obj.isModule c
+        toString t.file ++ ":" ++ showLine r.1 ++ ":" ++ r.2
+      " ".intercalate ((sortToks toks).eraseDups)
+    | _, _, _, _, _, _, _ => "bad-op"
+  | "moved" :: fmt :: srcFile :: curFile :: ln :: sl :: v :: cs =>
+    -- an object created from file `srcFile`, now living in the module of file `curFile`
+    match parseFmt fmt, srcFile.toNat?, curFile.toNat?, parseInt ln, sl.toNat?, Proto.decodeStr v, cs.mapM parseIOCons with
+    | some fmt, some sf, some cf, some ln, some sl, some doc, some cs =>
+      let p : Placed := (⟨sf, sf, docObj sl doc ln false⟩ : Placed).reparent cf
+      let toks := (ioReported fmt cs).map fun c =>
+        let r := ioLine fmt sl doc ln false c
+        toString p.descriptionFile ++ ":" ++ showLine r.1 ++ ":" ++ r.2
       " ".intercalate ((sortToks toks).eraseDups)
     | _, _, _, _, _, _, _ => "bad-op"
   | ["inrange", sl, v, im, ln, sec, off] =>
